@@ -104,7 +104,46 @@ def run(tier, seed):
 
         vlib.differential(rep, binary, cases, sdir, "cnt", canon=canon, oracle=oracle,
                           nontrivial=lambda c, i: " M2M " in i and int(c.split()[7]) >= 2, clause=lambda c: "cnt:d%s:split%s" % (c.split()[1], c.split()[7]))
-        rep.coverage["rule"] = "random trees d=1..3 x stop levels x 9 ways of splitting the operators over separate counter-kernel copies (merged forward and backward); non-trivial = >= 2 copies merged and M2M present"
+        # the real per-worker partition: the task executors (OpenMP, Specx, StarPU on the mock runtimes of C03) with one counter
+        # kernel per worker under seeded schedules; merged counters must be those of the sequential model
+        from checks import c03
+        from concurrent.futures import ThreadPoolExecutor
+        with ThreadPoolExecutor(max_workers=3) as ex:
+            built = list(ex.map(lambda r: vlib.build_harness(r[1], extra_flags=r[2], sources=["h_sched.cpp"], defines=r[3], includes=r[4]), c03.RUNTIMES))
+        for (rt, hname, flags, defines, incs, share), (sbin, serr) in zip(c03.RUNTIMES, built):
+            if not sbin:
+                rep.violation(dict(kind="build", clause=hname, has_input=True), "harness %s does not compile: %s" % (hname, serr[-400:]), dict(stderr=serr))
+                continue
+            rcases, mcases = [], []
+            nrt = int((40 if tier == "quick" else 1500) * share)
+            for tc in T.gen_random(rng, nrt, 120 if tier == "quick" else 800, dims=(1, 2, 3), Hmax={1: 7, 2: 5, 3: 5}):
+                stop = rng.choice([2, 2, 0, 1])
+                for pol, Tn, ss in [(rng.choice([1, 2, 4, 5]), rng.choice([2, 3, 8, 16]), 0), (3, rng.choice([1, 2, 3, 8, 16]), rng.below(1 << 30))]:
+                    nums = " ".join(str(x) for p in tc.nums for x in p)
+                    rcases.append("execcntrt %d 0 %d %d %d %d %d %d %d %d %s" % (tc.d, tc.H, tc.B, tc.mode, stop, pol, Tn, ss, tc.N, nums))
+                    mcases.append("execcnt %d 0 %d %d %d %d 1 63 %d %s" % (tc.d, tc.H, tc.B, tc.mode, stop, tc.N, nums))
+
+            def rcanon(c, line):
+                if line.startswith(("ABORT", "MODEL", "?")):
+                    return line
+                p = fields(line)
+                calls = [A.parse_call(x) for x in A.split_trace(p[1])]
+                return (p[0], sorted(A.elementary(calls).items()), p[3], p[4])      # per-worker split (K) depends on the schedule
+
+            def roracle(c, line):
+                t = c.split()
+                mc = "execcnt %s 1 63 %s" % (" ".join(t[1:7]), " ".join(t[10:]))
+                m = oracle(mc, line)
+                if m: return "under schedule policy %s, %s workers: %s" % (t[7], t[8], m)
+                p = fields(line)
+                ks = [[int(x) for x in part.split()] for part in p[2][2:].split(" | ")]
+                if len(ks) < int(t[8]) and rt != "starpu":
+                    return "%d kernel copies for %s workers" % (len(ks), t[8])
+                return None
+            vlib.differential(rep, sbin, rcases, sdir, "cnt" + rt, canon=rcanon, oracle=roracle, model_cases=mcases,
+                              nontrivial=lambda c, i: " M2M " in i and i.split(" || ")[2].count("|") >= 1,
+                              clause=lambda c: "cnt%s:d%s" % (rt, c.split()[1]))
+        rep.coverage["rule"] = "random trees d=1..3 x stop levels x 9 ways of splitting the operators over separate counter-kernel copies (merged forward and backward); non-trivial = >= 2 copies merged and M2M present; plus the per-worker copies of the real task executors (OpenMP / Specx / StarPU on mock runtimes) under seeded schedules"
         return rep.finish()
     finally:
         vlib.cleanup(sdir)
